@@ -4,6 +4,8 @@
 From Coq Require Import Arith List Bool String.
 From VQ Require Import Model.Shapes Model.ShapesDoc Proofs.ShapesProofs Glue.ShapesGlue Glue.Pin_p_shapes.
 From VQ Require Import Glue.Pin_fp_C13.
+From Coq Require Import ZArith SpecFloat. From VQ Require Import Model.B32 Proofs.BF16Index.
+From VQ Require Import Glue.FsqCastGlue.
 Import ListNotations.
 
 Theorem C13_output_shape_is_input_shape :
@@ -30,7 +32,7 @@ Print Assumptions C13_index_shape_any_rank.
 
 Theorem C13_tokens_seen_by_codebook :
   forall (l : layout) (s : shape) (b n d : nat),
-       to_seq l s = Some (b, n, d) -> b * n = prod (drop_feature l s).
+       to_seq l s = Some (b, n, d) -> (b * n)%nat = prod (drop_feature l s).
 Proof. exact (@tokens_count). Qed.
 Print Assumptions C13_tokens_seen_by_codebook.
 
@@ -47,29 +49,29 @@ Proof. exact (@grouped_index_shape). Qed.
 Print Assumptions C13_groups_axis.
 
 Theorem C13_rotate_to_keeps_shape :
-  forall m d : nat, 1 <= m -> 1 <= d -> rotate_to_shape (squeeze_at 1) m d = Some [m; d].
+  forall m d : nat, (1 <= m)%nat -> (1 <= d)%nat -> rotate_to_shape (squeeze_at 1) m d = Some [m; d].
 Proof. exact (@rotate_shape_squeeze_dim). Qed.
 Print Assumptions C13_rotate_to_keeps_shape.
 
 Theorem C13_rotate_to_bare_squeeze_refuted :
-  rotate_to_shape squeeze_all 6 1 = Some [6; 6].
+  rotate_to_shape squeeze_all 6 1 = Some [6%nat; 6%nat].
 Proof. exact (@rotate_shape_bare_squeeze_refuted). Qed.
 Print Assumptions C13_rotate_to_bare_squeeze_refuted.
 
 Theorem C13_bare_squeeze_fine_when_nondegenerate :
-  forall m d : nat, 2 <= m -> 2 <= d -> rotate_to_shape squeeze_all m d = Some [m; d].
+  forall m d : nat, (2 <= m)%nat -> (2 <= d)%nat -> rotate_to_shape squeeze_all m d = Some [m; d].
 Proof. exact (@rotate_shape_bare_squeeze_ok_otherwise). Qed.
 Print Assumptions C13_bare_squeeze_fine_when_nondegenerate.
 
 Theorem C13_squeeze_dim_unit :
   forall pre post : shape,
-       squeeze_at (Datatypes.length pre) (pre ++ 1 :: post)%list = (pre ++ post)%list.
+       squeeze_at (Datatypes.length pre) (pre ++ 1%nat :: post)%list = (pre ++ post)%list.
 Proof. exact (@squeeze_at_unit). Qed.
 Print Assumptions C13_squeeze_dim_unit.
 
 Theorem C13_squeeze_dim_nonunit :
   forall (pre post : shape) (n : nat),
-       n <> 1 -> squeeze_at (Datatypes.length pre) (pre ++ n :: post)%list = (pre ++ n :: post)%list.
+       n <> 1%nat -> squeeze_at (Datatypes.length pre) (pre ++ n :: post)%list = (pre ++ n :: post)%list.
 Proof. exact (@squeeze_at_nonunit). Qed.
 Print Assumptions C13_squeeze_dim_nonunit.
 
@@ -92,6 +94,27 @@ Theorem C13_tie_source_footprint :
   fp_C13.fp_C13 = pinned_fp_C13.
 Proof. exact (@Pin_fp_C13.pin_fp_C13). Qed.
 Print Assumptions C13_tie_source_footprint.
+
+Theorem C13_b32_top_level_index_exact :
+  forall L : Z,
+       258 <= L <= 1000 -> Z.even L = true -> sf_eqb (b32_top_level_sum L) (b32_of_Z (L - 1)) = true.
+Proof. exact (@BF16Index.b32_top_level_exact). Qed.
+Print Assumptions C13_b32_top_level_index_exact.
+
+Theorem C13_bf16_top_level_index_wrong :
+  forall L : Z, 258 <= L <= 1000 -> Z.even L = true -> sf_round_he (bf16_top_level_sum L) <> L - 1.
+Proof. exact (@BF16Index.bf16_top_level_wrong). Qed.
+Print Assumptions C13_bf16_top_level_index_wrong.
+
+Theorem C13_bf16_top_level_512 :
+  sf_round_he (bf16_top_level_sum 512) = 512.
+Proof. exact (@BF16Index.bf16_top_level_512). Qed.
+Print Assumptions C13_bf16_top_level_512.
+
+Theorem C13_tie_fsq_index_before_cast :
+  index_before_cast o_fsq_index_cast.o_fsq_index_cast = true.
+Proof. exact (@FsqCastGlue.fsq_index_before_cast). Qed.
+Print Assumptions C13_tie_fsq_index_before_cast.
 
 (* index range: indices are argmax / argmin positions of non-empty score lists (C01_argmax_in_range), mixed-radix digits
    sums below prod(levels) (C04), and -1 exactly at padded (C09) or dropped (C12) entries *)
